@@ -8,6 +8,6 @@ rsync -a --exclude .git --exclude evidence /verif/ "$S/"
 export VERIF_NO_EVIDENCE=1
 "$S/tools/seedrun.py" --own --verbose > /tmp/regress.$T.seeds.log 2>&1
 "$S/tools/benignrun.py" --verbose > /tmp/regress.$T.benign.log 2>&1
-[ -d /tmp/benignG_stage ] && BENIGN_DIR=/tmp/benignG_stage "$S/tools/benignrun.py" --verbose > /tmp/regress.$T.G.log 2>&1
+
 rm -rf "$S"
 tail -q -n1 /tmp/regress.$T.seeds.log /tmp/regress.$T.benign.log /tmp/regress.$T.G.log
